@@ -44,8 +44,8 @@ if str(HERE) not in sys.path:
     sys.path.insert(0, str(HERE))
 
 import c02_reader as R                 # noqa: E402
-from c02_consts import Program, ClassRef, NotConst, decorators      # noqa: E402
-from c02_values import Cond, Toks, Const, Unk, ShxV, SelfV, Line, Last, KwTest, T, F, f_atom, xdnf      # noqa: E402
+from c02_consts import Program, ClassRef, NotConst      # noqa: E402
+from c02_values import Toks, Unk, ShxV, SelfV, Line, Last      # noqa: E402
 
 OUT = 'C02Dispatch.lean'
 SHELX = 'shelxfile.shelx.shelx'
